@@ -150,7 +150,9 @@ ORACLES = [
      'bound': '2 budgets (supplemental source, tag-only rules, transforms, let / merchant: / variable rules, both rule modes) x every merchant, 16 raw descriptions through explain_description and 5 through the explain command'},
 ]
 TRUSTED_BASE = ['pyvc symbolic executor', 'z3 5.1.0 / cvc5 1.0.3', 'callees uninterpreted (as in C11)', 'argparse / process start-up outside the verified text (A10)']
-ASSUMPTIONS = ['load_config sets _merchants_file only to an existing file (proved in C11)', 'non-interactive run without --migrate']
+ASSUMPTIONS = ['load_config sets _merchants_file only to an existing file (proved in C11)', 'non-interactive run without --migrate',
+               'explain_description / normalize_merchant contract: a rules file is loaded (cached engine present); with legacy CSV rules both fall back to their own tuple loops, compared by the bounded oracle only',
+               'apply_transforms is a function of the description and the transform list (C08: raises nothing)']
 EXPLANATION = ('Relational wiring proof: the source loops of cmd_discover and cmd_explain satisfy the same invariant, over the same uninterpreted terms, as cmd_run; '
                '_check_merchant_migration returns the configured get_all_rules call; explain_description and normalize_merchant ask the loaded engine the same question and report its answer; '
                'bounded stand-in (labelled): the three commands on generated budgets.')
